@@ -612,13 +612,13 @@ func checkWithLocalVariable(r *Run, prog *Program, pfx string) {
 		for _, ins := range b.Instrs {
 			switch x := ins.(type) {
 			case *ssa.Store:
-				if fa, ok := x.Addr.(*ssa.FieldAddr); ok && fieldName(fa.X.Type(), fa.Field) == "withLocalVariables" && fa.X == ssa.Value(cl.Params[0]) {
+				if fa, ok := x.Addr.(*ssa.FieldAddr); ok && fieldName(fa.X.Type(), fa.Field) == optField(prog, "WithLocalVariable") && fa.X == ssa.Value(cl.Params[0]) {
 					stores++
 					if c, ok := x.Val.(*ssa.Call); ok {
 						if bi, ok := c.Call.Value.(*ssa.Builtin); ok && bi.Name() == "append" {
 							// first argument: load of the same field
 							if ld, ok := c.Call.Args[0].(*ssa.UnOp); ok {
-								if fa2, ok := ld.X.(*ssa.FieldAddr); ok && fieldName(fa2.X.Type(), fa2.Field) == "withLocalVariables" {
+								if fa2, ok := ld.X.(*ssa.FieldAddr); ok && fieldName(fa2.X.Type(), fa2.Field) == optField(prog, "WithLocalVariable") {
 									okShape = true
 								}
 							}
